@@ -70,14 +70,16 @@ Devs(cls) ==
     [] cls = "quantized_bits" ->
          {<<"bits", "i:3">>, <<"integer", "i:2">>, <<"symmetric", "i:1">>, <<"keep_negative", "b:0">>, <<"alpha", "f:2.0">>,
           <<"use_stochastic_rounding", "b:1">>, <<"scale_axis", "i:0">>, <<"qnoise_factor", "f:0.5">>, <<"use_ste", "b:0">>,
-          <<"use_variables", "b:1">>, <<"elements_per_scale", "i:2">>, <<"min_po2_exponent", "i:1">>, <<"max_po2_exponent", "i:-3">>}
+          <<"use_variables", "b:1">>, <<"elements_per_scale", "i:2">>, <<"min_po2_exponent", "i:1">>, <<"max_po2_exponent", "i:-3">>,
+          <<"scale_axis", "l:0 1">>, <<"elements_per_scale", "l:2 3">>}
     [] cls = "bernoulli" -> {<<"alpha", "f:2.0">>, <<"temperature", "f:1.5">>, <<"use_real_sigmoid", "b:0">>}
     [] cls = "ternary" -> {<<"alpha", "f:2.0">>, <<"threshold", "f:0.75">>, <<"threshold", "f:0.0">>, <<"use_stochastic_rounding", "b:1">>,
                            <<"number_of_unrolls", "i:1">>}
     [] cls = "stochastic_ternary" -> {<<"threshold", "f:0.75">>, <<"temperature", "f:2.0">>,
                                       <<"use_real_sigmoid", "b:0">>, <<"number_of_unrolls", "i:1">>}
     [] cls = "binary" -> {<<"use_01", "b:1">>, <<"alpha", "f:2.0">>, <<"use_stochastic_rounding", "b:1">>, <<"scale_axis", "i:0">>,
-                          <<"elements_per_scale", "i:2">>, <<"min_po2_exponent", "i:1">>, <<"max_po2_exponent", "i:-3">>}
+                          <<"elements_per_scale", "i:2">>, <<"min_po2_exponent", "i:1">>, <<"max_po2_exponent", "i:-3">>,
+                          <<"scale_axis", "l:0 1">>, <<"elements_per_scale", "l:2 3">>}
     [] cls = "stochastic_binary" -> {<<"alpha", "f:2.0">>, <<"temperature", "f:1.5">>, <<"use_real_sigmoid", "b:0">>}
     [] cls = "quantized_relu" ->
          {<<"bits", "i:3">>, <<"integer", "i:2">>, <<"use_sigmoid", "i:1">>, <<"negative_slope", "f:0.25">>,
@@ -108,6 +110,8 @@ IsAuto(o) == Has(o, "alpha") /\ o.alpha \in {"s:auto", "s:auto_po2"}
 \* documented contracts of the constructors / calls (asserts and ValueErrors in the code; line numbers in DESIGN.md)
 Valid(cls, o) ==
   /\ (Has(o, "elements_per_scale") /\ o.elements_per_scale # "None") => (o.alpha = "s:auto_po2" /\ o.scale_axis # "None")
+  /\ (Has(o, "elements_per_scale") /\ o.elements_per_scale = "l:2 3") => o.scale_axis = "l:0 1"     \* one entry per scale axis
+  /\ (Has(o, "elements_per_scale") /\ o.elements_per_scale = "i:2") => o.scale_axis = "i:0"
   /\ (Has(o, "min_po2_exponent") /\ (o.min_po2_exponent # "None" \/ o.max_po2_exponent # "None")) => o.alpha = "s:auto_po2"
   /\ (cls \in {"ternary", "stochastic_ternary"} /\ IsAuto(o)) => o.threshold = "None"
   /\ (cls = "stochastic_ternary") => IsAuto(o)              \* training branch asserts a string alpha
